@@ -101,12 +101,24 @@ class MatrixTheory:
         raise Unsupported('matrix method %s' % name)
 
     # ---- elementwise predicates ----------------------------------------------------------------------------
-    def mat_isin(self, m, ids, st, node):
+    def mat_isin(self, m, ids, st, node, kw=None):
         et, n, w, data = self.mcell(m, st)
         ids = self.as_array(ids, st)
         c = st.heap.lists[ids.ref]
         if et != 'int' or c.etype not in ('int', None):
             return None
+        kw = kw or {}
+        if any(k not in ('assume_unique',) for k in kw):
+            return None
+        if 'assume_unique' in kw and not z3.is_false(z3.simplify(self.truth(kw['assume_unique'], st))):
+            # NumPy's sort-based path is only correct when BOTH arguments have no repeated element
+            s1, j1, s2, j2 = (z3.Int(fresh_name(x)) for x in ('s', 'j', 's', 'j'))
+            self.oblige(st, 'pre', 'np.isin.assume_unique-first-argument-unique',
+                        z3.ForAll([s1, j1, s2, j2], z3.Implies(z3.And(self._rng(s1, j1, n, w), self._rng(s2, j2, n, w), z3.Or(s1 != s2, j1 != j2)), data[s1][j1] != data[s2][j2])), node)
+            if c.etype is not None:
+                a1, a2 = z3.Int(fresh_name('a')), z3.Int(fresh_name('b'))
+                self.oblige(st, 'pre', 'np.isin.assume_unique-second-argument-unique',
+                            z3.ForAll([a1, a2], z3.Implies(z3.And(a1 >= 0, a1 < a2, a2 < c.length), c.leaves[0][a1] != c.leaves[0][a2])), node)
         p = z3.Function(fresh_name('isin_p'), z3.IntSort(), z3.BoolSort())
         if c.etype is None:
             v = z3.Int(fresh_name('v'))
